@@ -71,6 +71,7 @@ func main() {
 	deadline := fs.Duration("deadline", 0, "wall clock limit for exploration")
 	transcript := fs.String("transcript", "", "write worker 0's solver transcript here")
 	forkMaps := fs.Bool("fork-maps", false, "fork map iteration order (forward/reverse)")
+	maxViol := fs.Int("max-violations", 3, "counterexamples kept per assertion id")
 	witnesses := fs.Int("witnesses", 3, "passing paths for which a model is emitted")
 	overlay := fs.String("overlay", "", "virtual=real[,virtual=real] source overlay")
 	extraPkgs := fs.String("pkgs", "", "additional package patterns to load")
@@ -157,7 +158,7 @@ func main() {
 	opts := interp.Options{
 		Workers: *workers, SolverPath: *solverPath, CVC5Path: *cvc5Path, QueryTimeoutMs: *qto, FeasTimeoutMs: *fto,
 		StepBudget: *steps, DepthBudget: *depth, MaxPaths: *maxPaths, Tier: *tier,
-		ActiveKnown: map[string]bool{}, Transcript: *transcript, ForkMaps: *forkMaps, WitnessPaths: *witnesses,
+		MaxViolations: *maxViol, ActiveKnown: map[string]bool{}, Transcript: *transcript, ForkMaps: *forkMaps, WitnessPaths: *witnesses,
 	}
 	for _, k := range strings.Split(*known, ",") {
 		if k != "" {
